@@ -794,6 +794,75 @@ def unit_degenerate(ctx):
                  instance=ctx.key(drop=("container",)))
 
 
+INDEX_TYPES = ["python-int-tuple", "python-int-list", "int64-array", "int32-array", "int16-array", "uint16-array",
+               "int8-array", "uint8-array", "tuple-of-int16", "tuple-of-uint8", "tuple-of-int8", "tuple-of-int64",
+               "tuple-of-uint64", "bool-free-mixed-tuple"]
+_NP = {"int64": np.int64, "int32": np.int32, "int16": np.int16, "uint16": np.uint16, "int8": np.int8, "uint8": np.uint8,
+       "uint64": np.uint64}
+
+
+def unit_index_types(ctx):
+    """An index is an index in whatever integer representation it arrives: Python ints, lists, numpy integer arrays and
+    scalars of every width, signed or not - also where 2*i + 1, i + 1 or i * n would leave the range of a narrow type.
+    index -> centre must be pmin + (i + 1/2) cell for all of them, and centre -> index must give the index back."""
+    nshape = ctx.choose("n", [(300,), (130, 3), (40000,), (2, 260, 2)])
+    long_ax = int(np.argmax(nshape))
+    i_long = ctx.choose("index", [0, 1, 63, 64, 100, 127, 128, 129, 200, 255, 256, 259, 299, 16383, 16384, 32767, 32768,
+                                  39999])
+    if i_long >= nshape[long_ax]:
+        raise engine.Skip()
+    rep = ctx.choose("representation", INDEX_TYPES)
+    geom = ctx.choose("geometry", ["unit", "nm-offset"])
+    ndim = len(nshape)
+    if geom == "unit":
+        pmin = [0.0, -1.0, 2.0][:ndim]
+        cell = [1.0, 0.5, 2.0][:ndim]
+    else:
+        pmin = [-3e-9, 1.1e-9, 0.0][:ndim]
+        cell = [0.1e-9, 2.5e-9, 0.3e-9][:ndim]
+    pmax = [a + c * k for a, c, k in zip(pmin, cell, nshape)]
+    mesh = df.Mesh(region=df.Region(p1=tuple(pmin), p2=tuple(pmax)), n=nshape)
+    idx = [min(1, k - 1) for k in nshape]
+    idx[long_ax] = i_long
+    base, _, kind = rep.partition("-")
+    if rep.startswith("python-int"):
+        arg = tuple(idx) if rep.endswith("tuple") else list(idx)
+    elif rep == "bool-free-mixed-tuple":
+        arg = tuple(np.int16(v) if j % 2 else int(v) for j, v in enumerate(idx)) if i_long <= 32767 or long_ax % 2 == 0 else None
+    elif rep.startswith("tuple-of-"):
+        t = _NP[rep[len("tuple-of-"):]]
+        arg = tuple(t(v) for v in idx) if max(idx) <= np.iinfo(t).max else None
+    else:
+        t = _NP[base]
+        arg = np.array(idx, dtype=t) if max(idx) <= np.iinfo(t).max else None
+    if arg is None:
+        raise engine.Skip()  # the index itself is not representable in this type
+    want = [Fr(float(mesh.region.pmin[a])) + (Fr(idx[a]) + Fr(1, 2)) * (Fr(float(mesh.region.pmax[a])) - Fr(float(mesh.region.pmin[a]))) / nshape[a]
+            for a in range(ndim)]
+    ctx.step(1, f"index2point({arg!r})")
+    raised, p = C.raises(mesh.index2point, arg)
+    ctx.check()
+    inst = ctx.key(drop=("geometry",))
+    if raised:
+        ctx.fail("Mesh.index2point/refuses-in-range-index/" + rep.split("-")[-1], f"{arg!r} on n={nshape}: {type(p).__name__}: {str(p)[:120]}",
+                 instance=inst)
+        return
+    p = np.asarray(p, dtype=float).reshape(-1)
+    ctx.observe(rep, [float(x) for x in p])
+    for a in range(ndim):
+        tol = 4 * Fr(C.ulp(max(abs(float(mesh.region.pmin[a])), abs(float(mesh.region.pmax[a])))))
+        if abs(Fr(float(p[a])) - want[a]) > tol:
+            ctx.fail("Mesh.index2point/not-the-cell-centre/index-representation", f"index {arg!r} ({rep}) on n={nshape}: axis {a} "
+                     f"gives {float(p[a])!r}, the centre of cell {idx[a]} is {float(want[a])!r}", instance=inst)
+            return
+    ctx.step(1, "point2index(centre)")
+    raised, back = C.raises(mesh.point2index, tuple(float(x) for x in p))
+    ctx.check()
+    if raised or [int(v) for v in back] != idx:
+        ctx.fail("Mesh.point2index/centre-does-not-map-back/index-representation", f"index {idx} -> {p.tolist()} -> "
+                 f"{back if not raised else type(back).__name__}", instance=inst)
+
+
 def units(tier):
     return [
         {"name": "lattice1d", "fn": unit_lattice1d, "bound": None},
@@ -805,6 +874,7 @@ def units(tier):
         {"name": "bycell_many", "fn": unit_bycell_many, "bound": None},
         {"name": "tolerance", "fn": unit_tolerance, "bound": None},
         {"name": "degenerate", "fn": unit_degenerate, "bound": None},
+        {"name": "index_types", "fn": unit_index_types, "bound": None},
         {"name": "history", "fn": unit_history, "bound": None},
         {"name": "aliasing", "fn": unit_aliasing, "bound": None},
     ]
